@@ -65,29 +65,32 @@ type c17Spec struct {
 }
 
 type c17Result struct {
-	ID                 string   `json:"id"`
-	Violations         []string `json:"violations"`
-	Queries            int      `json:"queries"`
-	Handles            int      `json:"handles"`
-	ReopenAfterClose   int      `json:"reopen_after_close"`
-	BurstRounds        int      `json:"burst_rounds"`
-	BurstGoroutines    int      `json:"burst_goroutines"`
-	MaxKeysLive        int      `json:"max_keys_live"`
-	TwoOptionOverlap   int      `json:"two_option_overlap"`
-	SameOptionShare    int      `json:"same_option_share"`
-	LockProbes         int      `json:"lock_probes"`
-	HeldProbes         int      `json:"held_probes"`
-	BadOpens           int      `json:"bad_opens"`
-	ChurnRounds        int      `json:"churn_rounds"`
-	Pings              int      `json:"pings"`
-	Transactions       int      `json:"transactions"`
-	TxOverlaps         int      `json:"tx_overlaps"`
-	RawConns           int      `json:"raw_conns"`
-	PingChurnRounds    int      `json:"ping_churn_rounds"`
-	MissingFileQueries int      `json:"missing_file_queries"`
-	RelativeOpens      int      `json:"relative_opens"`
-	Done               bool     `json:"done"`
+	ID                  string   `json:"id"`
+	Violations          []string `json:"violations"`
+	Queries             int      `json:"queries"`
+	Handles             int      `json:"handles"`
+	ReopenAfterClose    int      `json:"reopen_after_close"`
+	BurstRounds         int      `json:"burst_rounds"`
+	BurstGoroutines     int      `json:"burst_goroutines"`
+	MaxKeysLive         int      `json:"max_keys_live"`
+	TwoOptionOverlap    int      `json:"two_option_overlap"`
+	SameOptionShare     int      `json:"same_option_share"`
+	LockProbes          int      `json:"lock_probes"`
+	HeldProbes          int      `json:"held_probes"`
+	BadOpens            int      `json:"bad_opens"`
+	ChurnRounds         int      `json:"churn_rounds"`
+	Pings               int      `json:"pings"`
+	Transactions        int      `json:"transactions"`
+	TxOverlaps          int      `json:"tx_overlaps"`
+	RawConns            int      `json:"raw_conns"`
+	PingChurnRounds     int      `json:"ping_churn_rounds"`
+	MissingFileQueries  int      `json:"missing_file_queries"`
+	RelativeOpens       int      `json:"relative_opens"`
+	CtxExpiredFirstUses int      `json:"ctx_expired_first_uses"`
+	Done                bool     `json:"done"`
 }
+
+var errCtxExpired = fmt.Errorf("context ended before the answer")
 
 var c17OptStrings = []string{"", "?preload=true", "?lrucache=true&lrucachesize=2000", "?preload=true&lrucache=true&lrucachesize=100000", "?lrucachesize=100000&lrucache=true&preload=true"}
 
@@ -173,6 +176,9 @@ func workerC17(args []string) int {
 				return
 			}
 			res.Queries++
+			if err == errCtxExpired {
+				return // the caller's context ended first: no answer to judge
+			}
 			if e.want.Err {
 				if err == nil {
 					rows.Close()
@@ -186,6 +192,10 @@ func workerC17(args []string) int {
 			}
 			got, rerr := readRows(rows)
 			if rerr != nil {
+				if strings.Contains(rerr.Error(), "context deadline exceeded") || strings.Contains(rerr.Error(), "context canceled") {
+					res.CtxExpiredFirstUses++
+					return // database/sql closed the result set because the caller's context ended while it was being read
+				}
 				add("query %q: %v", q.Text, rerr)
 				return
 			}
@@ -214,6 +224,67 @@ func workerC17(args []string) int {
 				}
 			case "vanish":
 				os.Remove(spec.Files[op.File].Path)
+			case "burst-expect-error":
+				// N goroutines at once make the first use of a handle whose file does not exist: every one gets an error
+				hd := handles[op.H]
+				if hd == nil || hd.closed {
+					continue
+				}
+				f := spec.Files[hd.file]
+				var wg sync.WaitGroup
+				var mu sync.Mutex
+				gate := make(chan struct{})
+				for g := 0; g < op.N; g++ {
+					wg.Add(1)
+					go func(g int) {
+						defer wg.Done()
+						<-gate
+						var qerr error
+						p, msg, _ := vf.Try(func() {
+							if g%3 == 2 {
+								if qerr = hd.db.Ping(); qerr != nil {
+									return
+								}
+								// a Ping that reports success on a missing file is judged by the query that follows
+							}
+							var rows *sql.Rows
+							rows, qerr = hd.db.Query(f.Queries[(op.Q+g)%len(f.Queries)].Text)
+							if qerr == nil {
+								rows.Close()
+							}
+						})
+						mu.Lock()
+						defer mu.Unlock()
+						if p {
+							if len(res.Violations) < 5 {
+								res.Violations = append(res.Violations, fmt.Sprintf("op %d: concurrent first use of a handle whose file does not exist panicked: %s", oi, msg))
+							}
+						} else if qerr == nil && len(res.Violations) < 5 {
+							res.Violations = append(res.Violations, fmt.Sprintf("op %d: a query on a handle whose file does not exist succeeded", oi))
+						}
+						res.MissingFileQueries++
+					}(g)
+				}
+				close(gate)
+				wg.Wait()
+			case "ctx-first-use":
+				// the first use of a fresh handle under a context that ends after op.K microseconds (during or shortly after
+				// the open); whatever comes back, rows must be right and the handle must stay usable and closable
+				hd := handles[op.H]
+				if hd == nil || hd.closed {
+					continue
+				}
+				hd.used = true
+				ctx, cancel := context.WithTimeout(context.Background(), time.Duration(op.K)*time.Microsecond)
+				runQueryVia(hd, op.Q, false, func(text string) (*sql.Rows, error) {
+					rows, err := hd.db.QueryContext(ctx, text)
+					if err != nil && ctx.Err() != nil {
+						res.CtxExpiredFirstUses++
+						return nil, errCtxExpired
+					}
+					return rows, err
+				})
+				cancel()
 			case "expect-error":
 				// a query on a handle whose file does not exist (yet): an error, no panic, no hang
 				hd := handles[op.H]
@@ -715,11 +786,25 @@ func c17GenHistory(rng *rand.Rand, id string, nfiles, nq int) c17History {
 		h.Ops = append(h.Ops, c17Op{Op: op, H: hd, Q: rng.Intn(nq)})
 	}
 	closeH := func(hd int) { h.Ops = append(h.Ops, c17Op{Op: "close", H: hd}) }
-	switch rng.Intn(13) {
+	switch rng.Intn(14) {
+	case 13: // first use of fresh handles under contexts that end within microseconds, then close: the file must be free
+		f := rng.Intn(nfiles)
+		o := c17OptStrings[rng.Intn(len(c17OptStrings))]
+		for i := 0; i < 3+rng.Intn(5); i++ {
+			hd := open(f, o)
+			h.Ops = append(h.Ops, c17Op{Op: "ctx-first-use", H: hd, Q: rng.Intn(nq), K: []int{1, 5, 20, 50, 100, 200, 400, 800, 1500, 3000}[rng.Intn(10)]})
+			if rng.Intn(2) == 0 {
+				q(hd)
+			}
+			closeH(hd)
+		}
 	case 11: // a handle on a file that does not exist yet: errors first, correct rows once the file is there
 		o := c17OptStrings[rng.Intn(len(c17OptStrings))]
 		late := nfiles // index of the late file
 		hd := open(late, o)
+		if rng.Intn(2) == 0 {
+			h.Ops = append(h.Ops, c17Op{Op: "burst-expect-error", H: hd, Q: rng.Intn(nq), N: 2 + rng.Intn(15)})
+		}
 		h.Ops = append(h.Ops, c17Op{Op: "expect-error", H: hd, Q: rng.Intn(nq)})
 		if rng.Intn(2) == 0 {
 			h.Ops = append(h.Ops, c17Op{Op: "expect-error", H: hd, Q: rng.Intn(nq)})
@@ -991,7 +1076,7 @@ func runC17(r *vf.Run) {
 			{Op: "close", H: 1}, {Op: "close", H: 2}, {Op: "close", H: 3}}},
 		c17History{ID: "late-file", Ops: []c17Op{{Op: "open", H: 0, File: 3, Opts: "?preload=true"}, {Op: "expect-error", H: 0, Q: 1}, {Op: "appear", File: 3}, {Op: "query", H: 0, Q: 1},
 			{Op: "open", H: 1, File: 3, Opts: "?preload=true"}, {Op: "query", H: 1, Q: 2}, {Op: "close", H: 0}, {Op: "close", H: 1}, {Op: "vanish", File: 3}}},
-		c17History{ID: "late-file-first-use-16", Ops: []c17Op{{Op: "open", H: 0, File: 3}, {Op: "expect-error", H: 0, Q: 1}, {Op: "expect-error", H: 0, Q: 2}, {Op: "appear", File: 3},
+		c17History{ID: "late-file-first-use-16", Ops: []c17Op{{Op: "open", H: 0, File: 3}, {Op: "burst-expect-error", H: 0, Q: 1, N: 16}, {Op: "expect-error", H: 0, Q: 2}, {Op: "burst-expect-error", H: 0, Q: 3, N: 16}, {Op: "appear", File: 3},
 			{Op: "burst", H: 0, Q: 0, N: 16}, {Op: "query", H: 0, Q: 3}, {Op: "close", H: 0}, {Op: "vanish", File: 3}}},
 	)
 	for i := 0; i < nh; i++ {
@@ -1080,6 +1165,7 @@ func runC17(r *vf.Run) {
 				r.Count("ping_next_to_open_close_churn_rounds", int64(hr.PingChurnRounds))
 				r.Count("queries_on_a_handle_whose_file_does_not_exist_yet", int64(hr.MissingFileQueries))
 				r.Count("opens_by_relative_name", int64(hr.RelativeOpens))
+				r.Count("first_uses_whose_context_ended_first", int64(hr.CtxExpiredFirstUses))
 				r.Max("distinct_file_option_keys_live_at_once", int64(hr.MaxKeysLive))
 				for _, v := range hr.Violations {
 					var hist c17History
